@@ -1,2 +1,144 @@
-/- C13 correspondence driver (stub: replaced when the property's model is built) -/
-def main : IO Unit := IO.println "stub"
+import PnVerif.Model.Abuf
+/-
+  C13 correspondence driver: reads the op script of harness/c13_buf.c on stdin and prints, for every
+  op, the line the harness prints as far as it is determined by the model (attached-buffer state,
+  inq_buffer_usage/size, which buffer goes to MPI-IO, swap flag, ncmpii_in_swapn on byte strings).
+-/
+open PnVerif PnVerif.Abuf
+
+namespace C13Drv
+
+def dumpS (s : S) : String :=
+  match s.abuf with
+  | none => " | abuf=none usage=E-217 size=E-217"
+  | some a =>
+    s!" | abuf={a.sizeAllocated}:{a.sizeUsed}:{a.tail}[" ++
+      " ".intercalate (a.table.map (fun t => s!"{if t.isUsed then 1 else 0}.{t.reqSize}")) ++
+      s!"] usage={a.sizeUsed} size={a.sizeAllocated}"
+
+structure H where
+  op : String := ""
+  queued : Bool := false
+  state : Nat := 0
+deriving Inhabited
+
+structure St where
+  s : S := {}
+  hint : Hint := .auto
+  hs : Array H := Array.replicate 256 {}
+
+def apiOf (k : Nat) : Api :=
+  match k with
+  | 0 => .blockingPut | 1 => .iput | 2 => .iputVarn | 3 => .bput | _ => .bputVarn
+
+def hexVal (c : Char) : Nat :=
+  if c.isDigit then c.toNat - '0'.toNat
+  else if 'a' ≤ c ∧ c ≤ 'f' then c.toNat - 'a'.toNat + 10
+  else if 'A' ≤ c ∧ c ≤ 'F' then c.toNat - 'A'.toNat + 10 else 0
+
+def parseHex : List Char → List UInt8
+  | a :: b :: rest => UInt8.ofNat (hexVal a * 16 + hexVal b) :: parseHex rest
+  | _ => []
+
+def hexDigit (n : Nat) : Char := if n < 10 then Char.ofNat (n + 48) else Char.ofNat (n - 10 + 97)
+def showHex (l : List UInt8) : String :=
+  String.ofList (l.flatMap (fun b => [hexDigit (b.toNat / 16), hexDigit (b.toNat % 16)]))
+
+def b01 (b : Bool) : String := if b then "1" else "0"
+
+def step (st : St) (line : String) : St × List String :=
+  let toks := (line.trimAscii.toString.splitOn " ").filter (· ≠ "")
+  match toks with
+  | ["S", es, ne, hx] =>
+    let r := inSwapn (parseHex hx.toList) (ne.toInt?.getD 0) (es.toNat?.getD 0)
+    (st, ["S " ++ showHex r])
+  | "CASE" :: idx :: hint :: _ =>
+    let h := if hint == "1" then Hint.enable else if hint == "2" then Hint.disable else Hint.auto
+    let st' : St := { s := {}, hint := h, hs := Array.replicate 256 {} }
+    (st', [s!"CASE {idx}" ++ dumpS st'.s])
+  | ["END"] => (st, ["END"])
+  | ["A", n] =>
+    let r := st.s.attach (n.toInt?.getD 0)
+    ({ st with s := r.1 }, [s!"A err={r.2}" ++ dumpS r.1])
+  | ["D"] =>
+    let r := st.s.detach
+    ({ st with s := r.1 }, [s!"D_ err={r.2}" ++ dumpS r.1])
+  | ["U"] => (st, ["U" ++ dumpS st.s])
+  | op :: h :: kind :: nc :: ns :: ct :: im :: nb :: _ =>
+    if op == "P" || op == "I" || op == "B" || op == "G" || op == "R" then
+      let h := h.toNat?.getD 0
+      let req : Req := { needConvert := nc == "1", needSwap := ns == "1", contig := ct == "1", imap := im == "1",
+                         nbytes := nb.toInt?.getD 0 }
+      let api := apiOf (kind.toNat?.getD 0)
+      if op == "P" then
+        (st, [s!"P h{h} err=0 xbuf={if mpiGetsUserBuf api st.hint req then "user" else "own"} swapped={b01 (swapFlag api st.hint req)}" ++ dumpS st.s])
+      else if op == "R" then
+        ({ st with hs := st.hs.modify h (fun _ => { op := "R" }) }, [s!"R h{h} err=0" ++ dumpS st.s])
+      else if op == "G" then
+        ({ st with hs := st.hs.modify h (fun _ => { op := "G", queued := true }) }, [s!"G h{h} err=0 queued=1" ++ dumpS st.s])
+      else if op == "I" then
+        let s' := st.s.iput h req.nbytes
+        let f := swapFlag api st.hint req
+        ({ st with s := s', hs := st.hs.modify h (fun _ => { op := "I", queued := true }) },
+         [s!"I h{h} err=0 queued=1 xbuf={if usesUserBuf api st.hint req then "user" else "own"} flag={b01 f} swapped={b01 f}" ++ dumpS s'])
+      else
+        let r := st.s.bput h req.nbytes
+        if r.2 != 0 then
+          ({ st with hs := st.hs.modify h (fun _ => { op := "B" }) }, [s!"B h{h} err={r.2} queued=0" ++ dumpS r.1])
+        else
+          ({ st with s := r.1, hs := st.hs.modify h (fun _ => { op := "B", queued := true }) },
+           [s!"B h{h} err=0 queued=1 xbuf=abuf flag=0 swapped=0" ++ dumpS r.1])
+    else if op == "W" || op == "X" then
+      -- here: h = num, the remaining tokens are handles
+      let num := h.toInt?.getD 0
+      let named := (toks.drop 2).map (fun t => t.toNat?.getD 0)
+      let live := fun (k : Nat) => let x := st.hs[k]?.getD {}; x.queued && x.state == 0
+      let all := (List.range 256).filter live
+      let sel : List Nat :=
+        if num ≥ 0 then (named.take num.toNat).filter live
+        else if num == -1 then all
+        else if num == -3 then all.filter (fun k => (st.hs[k]?.getD {}).op != "G")
+        else all.filter (fun k => (st.hs[k]?.getD {}).op == "G")
+      let writes := sel.filter (fun k => (st.hs[k]?.getD {}).op != "G")
+      let s' :=
+        if op == "W" then st.s.complete writes
+        else if num ≥ 0 then st.s.cancel writes
+        else if num == -2 then st.s
+        else st.s.cancelAll
+      let hs' := sel.foldl (fun a k => a.modify k (fun x => { x with state := if op == "W" then 1 else 2 })) st.hs
+      ({ st with s := s', hs := hs' }, [s!"{op} err=0 n={sel.length}" ++ dumpS s'])
+    else (st, ["bad-op"])
+  | op :: num :: rest =>
+    if op == "W" || op == "X" then
+      -- short forms "W -1", "X -3", "W 1 5"
+      let n := num.toInt?.getD 0
+      let named := rest.map (fun t => t.toNat?.getD 0)
+      let live := fun (k : Nat) => let x := st.hs[k]?.getD {}; x.queued && x.state == 0
+      let all := (List.range 256).filter live
+      let sel : List Nat :=
+        if n ≥ 0 then (named.take n.toNat).filter live
+        else if n == -1 then all
+        else if n == -3 then all.filter (fun k => (st.hs[k]?.getD {}).op != "G")
+        else all.filter (fun k => (st.hs[k]?.getD {}).op == "G")
+      let writes := sel.filter (fun k => (st.hs[k]?.getD {}).op != "G")
+      let s' :=
+        if op == "W" then st.s.complete writes
+        else if n ≥ 0 then st.s.cancel writes
+        else if n == -2 then st.s
+        else st.s.cancelAll
+      let hs' := sel.foldl (fun a k => a.modify k (fun x => { x with state := if op == "W" then 1 else 2 })) st.hs
+      ({ st with s := s', hs := hs' }, [s!"{op} err=0 n={sel.length}" ++ dumpS s'])
+    else (st, ["bad-op"])
+  | _ => (st, [])
+
+partial def loop (h : IO.FS.Stream) (out : IO.FS.Stream) (st : St) : IO Unit := do
+  let line ← h.getLine
+  if line.isEmpty then return ()
+  let (st', ls) := step st line
+  for l in ls do out.putStrLn l
+  loop h out st'
+
+end C13Drv
+
+def main : IO Unit := do
+  C13Drv.loop (← IO.getStdin) (← IO.getStdout) {}
